@@ -12,7 +12,7 @@
 (*   (== a b) at script level is TRUE exactly when the names are equal.    *)
 (* Symbol numbers themselves are not predicted (only the relation).        *)
 (***************************************************************************)
-EXTENDS Integers, Sequences, FiniteSets, Json, IOUtils, TLC
+EXTENDS Integers, Sequences, FiniteSets, Json, IOUtils, TLC, SequencesExt
 
 (* parse the trace file once (TLC would otherwise re-evaluate the operator) *)
 ASSUME TLCSet(11, ndJsonDeserialize(IOEnv.VERIF_TRACE))
@@ -22,6 +22,13 @@ Cases == TLCGet(11)
 (* interpreter starts with (builtins and reserved words); their numbers   *)
 (* are 1..n with n logged by the init event of each case                  *)
 BaseNames == IF "names" \in DOMAIN Cases[1] THEN {Cases[1].names[i] : i \in 1..Len(Cases[1].names)} ELSE {}
+
+(* named deviations (open findings), enabled through VERIF_DEVS *)
+DevStr == IF "VERIF_DEVS" \in DOMAIN IOEnv THEN IOEnv.VERIF_DEVS ELSE ""
+HasDev(d) == ReplaceFirstSubSeq("", d, DevStr) # DevStr
+(* dot-symbol-compared-by-binding: a symbol whose name contains a dot, written as data, is taken by ==  *)
+(* for a pending selection and compared by what it is bound to (equal bindings: equal; unbound: error) *)
+Dotted(name) == ReplaceFirstSubSeq("", ".", name) # name
 
 VARIABLES ci, pos, verdict, tab,  \* tab: set of <<name, num>> added since the start
           nbase                   \* number of pre-existing symbols
@@ -45,6 +52,7 @@ Explained(e) ==
       [] e.op = "intern" -> Consistent(tab, e.name, e.num)
       [] e.op = "gensym" -> e.name \notin NamesOf(tab) /\ e.num \notin NumsOf(tab)
       [] e.op = "eq"     -> e.res = (e.a = e.b)
+      [] e.op = "eqq"    -> e.res = <<"bool", e.a = e.b>>
       [] e.op \in {"dup", "clone"} -> TRUE
       [] OTHER -> FALSE
 
@@ -59,8 +67,11 @@ TStep ==
        IF Explained(e)
        THEN /\ tab' = After(e) /\ pos' = pos + 1 /\ UNCHANGED <<ci, verdict>>
             /\ nbase' = IF e.op = "init" THEN e.n ELSE nbase
-       ELSE verdict' = "bad" /\ UNCHANGED <<ci, pos, tab, nbase>>
-            /\ PrintT(<<"VERDICT", Cases[ci].id, "bad", pos>>)
+       ELSE IF e.op = "eqq" /\ (Dotted(e.a) \/ Dotted(e.b)) /\ HasDev("dot-symbol-compared-by-binding")
+            THEN /\ verdict' = "known:dot-symbol-compared-by-binding" /\ UNCHANGED <<ci, pos, tab, nbase>>
+                 /\ PrintT(<<"VERDICT", Cases[ci].id, "known:dot-symbol-compared-by-binding", pos>>)
+            ELSE /\ verdict' = "bad" /\ UNCHANGED <<ci, pos, tab, nbase>>
+                 /\ PrintT(<<"VERDICT", Cases[ci].id, "bad", pos>>)
 
 TDone ==
     /\ verdict = "run" /\ pos > Len(Evs)
@@ -71,5 +82,5 @@ TNext == TStep \/ TDone
 TSpec == TInit /\ [][TNext]_tvars
 
 (* the relation observed so far is always a partial bijection *)
-Bijection == \A p, q \in tab : (p[1] = q[1]) <=> (p[2] = q[2])
+PartialBijection == \A p, q \in tab : (p[1] = q[1]) <=> (p[2] = q[2])
 =============================================================================
